@@ -86,6 +86,20 @@ def cases(tier, seed):
                 for fk in ("silent", "err", "stuck"):
                     cs.append({"seq": "write", "value": "@custom", "locs": locs, "wdata": data,
                                "unit": memseq.unit(kind, label, list(base), fault=[at, fk])})
+    # data that is no byte string
+    done = set()
+    for (label, name), v in sorted(memseq.VALUES.items()):
+        row = [r for r in memseq.SPECMAP[label] if r[1] == name]
+        if not row or not all(t in "NLW" for t in (row[0][4] if len(row[0][4]) > 1 else row[0][4] * row[0][3])) or len(done) >= 6:
+            continue
+        done.add(name)
+        base = memseq.default_image(label, rng, "rand")
+        # (text of the right length is not in the list: the library notices it only when the first byte is to be sent, and
+        # the property quantifies over byte strings)
+        for bad in ("int", "true", "one", "none", "float"):
+            for short in (0, 1):
+                cs.append({"seq": "write", "value": name, "wdata": [], "badraw": bad, "short": short,
+                           "unit": memseq.unit("gear", label, list(base))})
     # value-level writes to user-declared quantities, unsigned and signed: numbers (also negative, also the ones that
     # do not fit) and the MASK / TMASK literals -- what ends up in the unit is the pattern of the value's kind
     for label, locs in (("1", [0x10]), ("1", [0x10, 0x11]), ("1", [0x13, 0x14, 0x15]), ("1", [0x21, 0x20])):
